@@ -18,7 +18,7 @@ DIRS = ['d1', 'd2', 'h/me/d3', 'h/alice/d4']
 MARK = {'d1': 1, 'd2': 2, 'h/me/d3': 3, 'h/alice/d4': 4}
 STATES = ['absent', 'file', 'dir']
 NAMES = ['f.conf', 'sub/f.conf', '@/abs.conf', '@/nope.conf', '@/d1', '~', '~/f.conf', '~alice', '~alice/f.conf', '~nouser/f.conf', '', 'd1/f.conf',
-         '~alice/', '~al', '~alicex/f.conf', './f.conf']
+         '~alice/', '~al', '~alicex/f.conf', './f.conf', '~alice/a/b.conf', '~/a/b/c', '~alice//f.conf', '~me/f.conf', '~alice/d4/f.conf']
 
 
 class World:
@@ -185,7 +185,7 @@ def shard(sh):
             world = World(root, layout)
             cases, exps = [], []
             for fill in fills:
-                c, exp, dirs = build_case(world, seq, fill, NAMES[:10] + NAMES[11:12] + NAMES[15:16])
+                c, exp, dirs = build_case(world, seq, fill, NAMES[:10] + NAMES[11:12] + NAMES[15:16] + NAMES[19:21])
                 cases.append(c)
                 exps.append(exp)
             for c, e, r, fill in zip(cases, exps, drv.run(cases), fills):
